@@ -150,8 +150,10 @@ class Gen:
         if t in PTR_TYPES:
             return 32768 + PTR_TYPES[t] * r.randrange(-8, 9)
         if t in FLT_TYPES:
-            # finite, ordinary values only in the random sequences (specials have their own group)
-            return r.choice([x for x in b if not is_float_special(t, x)][:4] + [f32(2.0) if t == "f32" else f64(2.0)])
+            # finite values in the random sequences, both zeros included (NaN / inf have their own group: arithmetic on
+            # them is compared there)
+            return r.choice([x for x in b if not is_float_special(t, x)][:4] + [f32(2.0) if t == "f32" else f64(2.0)] +
+                            [f32(-0.0) if t == "f32" else f64(-0.0)])
         return r.choice(b)
 
     def rand_arg(self, t, op):
@@ -205,14 +207,22 @@ class Gen:
                         self.add("boundary", t, vs[0], ops)
 
     def float_special_cases(self):
-        """CAS / exchange / arithmetic with NaN and -0.0 (== disagrees with the object representation)."""
+        """compare_exchange (all four forms, both cv-overloads, with and without the injected spurious failure),
+        exchange and arithmetic where == and the object representation disagree: stored/expected drawn from
+        +0.0, -0.0, two NaN payloads (so also NaN vs the same NaN) and an ordinary value.  std::atomic compares and
+        reloads BITS: a failed (also a spuriously failed) compare leaves expected bitwise equal to the stored value."""
         for t in FLT_TYPES:
             vs = boundaries(t, True)
-            sp = [v for v in vs if is_float_special(t, v)]
-            for v in sp + [vs[0]]:
-                for e in sp + [vs[0]]:
-                    for op in ("ces1", "cew1"):
-                        self.add("float-special", t, v, [(op, 0, 0, 0, e, vs[1]), ("load", 0, 0, 0, 0, 0)])
+            nan_b = 0x7fc00001 if t == "f32" else 0x7ff8000000000001       # a second NaN payload
+            sp = [v for v in vs if is_float_special(t, v)] + [nan_b]
+            pool = sp + [vs[0], vs[1]]                                        # -0.0, NaN A, NaN B, +0.0, 1.0
+            for v in pool:
+                for e in pool:
+                    for op in ("cew1", "cew2", "ces1", "ces2"):
+                        mo = 0 if op[-1] == "1" else 6 + 8 * 6
+                        for spur in (0, 1):
+                            for vol in (0, 1):
+                                self.add("float-special", t, v, [(op, vol, spur, mo, e, vs[2]), ("load", 0, 0, 0, 0, 0)])
             for v in sp:
                 self.add("float-special", t, vs[1], [("xchg", 0, 0, 0, v, 0), ("fadd", 0, 0, 0, vs[1], 0), ("load", 0, 0, 0, 0, 0)])
 
@@ -349,8 +359,26 @@ def as_int(s):
     return int(s)
 
 
+def fshow(t, bits):
+    """Bit pattern of a float/double as text: 0x80000000 (-0.0)."""
+    import struct
+    try:
+        b = int(bits)
+        x = struct.unpack("<f", struct.pack("<I", b))[0] if t == "f32" else struct.unpack("<d", struct.pack("<Q", b))[0]
+        return "%#x (%r)" % (b, x)
+    except Exception:
+        return str(bits)
+
+
 def describe(c, i, cfg, stored_before, got, want):
     op, vol, spur, mo, a1, a2 = c["ops"][i]
+    if c["type"] in FLT_TYPES:
+        t = c["type"]
+        cas = op.startswith("ce")
+        sh = lambda v, is_val=True: fshow(t, v) if is_val else str(v)
+        stored_before, a1, a2 = sh(stored_before), sh(a1, op not in INCDEC), sh(a2, cas)
+        got = [sh(got[0], not cas), sh(got[1]), sh(got[2], cas)]
+        want = [sh(want[0], not cas), sh(want[1]), sh(want[2], cas)]
     return ("[%s] yaclib_std::atomic<%s> holding %s: %s%s%s%s(args %s %s) -> returned %s, stored %s, expected %s; "
             "std::atomic: returned %s, stored %s, expected %s" % (
                 cfg, c["type"], stored_before, CPP_NAME.get(op, op), " volatile" if vol else "",
